@@ -193,8 +193,16 @@ def execute(case: dict, sbx_dir: str) -> Outcome:
                 out.results.append(r)
         elif entry == "cli":
             p = os.path.join(sbx_dir, fname)
-            with open(p, "wb") as f:
-                f.write(data)
+            special = case.get("special")
+            if special == "missing":
+                pass  # the path does not exist
+            elif special == "directory":
+                os.makedirs(p, exist_ok=True)  # a directory named like a document
+            elif special == "empty":
+                open(p, "wb").close()
+            else:
+                with open(p, "wb") as f:
+                    f.write(data)
             from sharepoint2text import cli
             so, se = io.StringIO(), io.StringIO()
             out.where = "cli"
